@@ -42,6 +42,10 @@ func TestVerif_C16(t *testing.T) {
 			}
 		}
 		multi := len(v.In.Rules) > 1
+		if v.In.Kind == "prules" {
+			c16PortVector(w, res, fw, &v, &drops)
+			return
+		}
 		if multi {
 			res.Hit(fmt.Sprintf("rules-%d", len(v.In.Rules)))
 		} else {
@@ -67,4 +71,34 @@ func TestVerif_C16(t *testing.T) {
 	})
 	res.Extra["drops"] = drops.Load()
 	res.Extra["vectors"] = n
+}
+
+// c16PortVector: a vector of the port dimension (Firewall.tla PortsSys / PortsPair): one or two rules whose port
+// specifications are placed systematically in the port space, evaluated on the port pairs (packets whose looked-at
+// port lies inside, at the edges, just outside every specification, port 0, fragments; tcp/udp/icmp/other).
+func c16PortVector(w *fwWorld, res *vResult, fw *Firewall, v *c16Vec, drops *atomic.Int64) {
+	res.Hit(fmt.Sprintf("prules-%d", len(v.In.Rules)))
+	classes := ""
+	for i, r := range v.In.Rules {
+		pc := fwPortClass(r.Lo, r.Hi)
+		if r.Proto == "icmp" {
+			pc = "icmp-ignored"
+		}
+		res.Hit("pport:" + pc)
+		if i > 0 {
+			classes += "+"
+		}
+		classes += r.Proto + "/" + pc
+		// which packet classes this specification is confronted with (same protocol table)
+		for _, id := range w.u.PPairs[v.In.Env] {
+			s := w.u.PPkts[id/10-1]
+			if r.Proto == "any" || r.Proto == s.Proto {
+				res.Hit("pcase:" + pc + ":" + fwPktClass(s, r.Dir))
+			}
+		}
+	}
+	key := func(what, dir, want string, id int) string {
+		return fmt.Sprintf("%s:%s:ports=%s:pkt=%s", what, want, classes, fwPktClass(w.u.PPkts[id/10-1], dir))
+	}
+	drops.Add(int64(w.checkVerdictsOn(res, fw, w.u.PPairs[v.In.Env], w.ppacket, v.In.Env, v.Exp, []string{"in", "out"}, key, v.In)))
 }
